@@ -84,6 +84,15 @@ Theorem C04_table_spec : forall evs, C04_hyps evs ->
 Proof. exact table_spec. Qed.
 Print Assumptions C04_table_spec.
 
+(* two Search objects, one after the other, on ONE evaluator (Search.__init__ resets the header state of the evaluator it is
+   given, num_objective survives): both tables satisfy the specification when the two searches have the same arity *)
+Theorem C04_reused_evaluator : forall evs1 evs2, C04_hyps evs1 -> C04_hyps evs2 ->
+  kind_of (all_jobs evs1) = kind_of (all_jobs evs2) ->
+  exists o1 o2, searches_from infer_fixed None [evs1; evs2] = [o1; o2]
+    /\ outcome_spec (all_jobs evs1) o1 /\ outcome_spec (all_jobs evs2) o2.
+Proof. exact reused_evaluator. Qed.
+Print Assumptions C04_reused_evaluator.
+
 (* the oracle applied to the implementation's cell matrix is sound for that specification ... *)
 Theorem C04_oracle_sound : forall jobs h rows, ok_C04 jobs h rows = true -> TableSpec jobs h rows.
 Proof. exact ok_C04_sound. Qed.
